@@ -780,3 +780,167 @@ Proof.
   apply period_ext; cbn [padd p_freq p_serial]; [symmetry; exact F | unfold gen_period_add].
   fold a e. rewrite Nat2Z.inj_sub, Nat2Z.inj_sub by lia. rewrite Z2Nat.id by lia. cbn [Z.of_nat]. nia.
 Qed.
+
+(* ------------------------------------------------------------------ 8. resolution and in-place histories *)
+
+Lemma ep_add_0 : forall e, ep_add e 0 = e.
+Proof. destruct e; cbn; [rewrite padd_0; reflexivity | unfold gen_ctx_add; f_equal; lia]. Qed.
+
+Lemma ep_add_add : forall e a b, ep_add (ep_add e a) b = ep_add e (a + b).
+Proof. destruct e; intros; cbn; [rewrite padd_padd; reflexivity | unfold gen_ctx_add; f_equal; lia]. Qed.
+
+Lemma ep_resolve_add : forall c e k, ep_resolve c (ep_add e k) = ep_add (ep_resolve c e) k.
+Proof.
+  intros c e k. destruct e as [p | [|] o]; cbn; [reflexivity | |]; rewrite padd_padd; reflexivity.
+Qed.
+
+Lemma ep_resolve_at : forall c e, exists p, ep_resolve c e = At p.
+Proof. intros c e. destruct e as [p | [|] o]; cbn; eauto. Qed.
+
+Lemma span_make_at : forall p q c, span_make (Some (At p)) (Some (At q)) c =
+  if check_periods p (Some q) then Ok (mkSpan (At p) (At q) c false) else Err ErrFreq.
+Proof. reflexivity. Qed.
+
+(* resolving against a context commutes with every in-place operation *)
+Theorem resolve_then_ops_commute : forall c s o,
+  span_resolve c (sstep s o) = dmap (fun r => sstep r o) (span_resolve c s).
+Proof.
+  intros c s o. unfold span_resolve.
+  destruct (ep_resolve_at c (sp_start s)) as (p & P). destruct (ep_resolve_at c (sp_end s)) as (q & Q).
+  destruct o; unfold sstep, with_state, gen_span_reverse, gen_span_shift, gen_span_shift_start, gen_span_shift_end;
+    cbn [sp_start sp_end sp_step]; rewrite ?ep_resolve_add, P, Q; cbn [ep_add]; rewrite !span_make_at.
+  - assert (check_periods q (Some p) = check_periods p (Some q)) as ->.
+    { unfold check_periods, same_class. rewrite Z.eqb_sym. reflexivity. }
+    destruct (check_periods p (Some q)); reflexivity.
+  - change (check_periods (padd p k) (Some (padd q k))) with (check_periods p (Some q)).
+    destruct (check_periods p (Some q)); reflexivity.
+  - change (check_periods (padd p k) (Some q)) with (check_periods p (Some q)).
+    destruct (check_periods p (Some q)); reflexivity.
+  - change (check_periods p (Some (padd q k))) with (check_periods p (Some q)).
+    destruct (check_periods p (Some q)); reflexivity.
+Qed.
+
+Theorem resolve_then_history_commute : forall c ops s,
+  span_resolve c (run_ops s ops) = dmap (fun r => run_ops r ops) (span_resolve c s).
+Proof.
+  intros c ops. induction ops as [| o ops IH]; intros s; cbn [run_ops fold_left].
+  - destruct (span_resolve c s); reflexivity.
+  - fold (run_ops (sstep s o) ops). rewrite IH, resolve_then_ops_commute.
+    destruct (span_resolve c s); reflexivity.
+Qed.
+
+(* summary of a history: has the span been flipped, and by how much have the ORIGINAL start and end moved *)
+Record summary := mkSum { su_flip : bool; su_da : Z; su_db : Z }.
+
+Definition sum_step (u : summary) (o : sop) : summary :=
+  match o with
+  | OReverse => mkSum (negb (su_flip u)) (su_da u) (su_db u)
+  | OShift k => mkSum (su_flip u) (su_da u + k) (su_db u + k)
+  | OShiftStart k => if su_flip u then mkSum true (su_da u) (su_db u + k) else mkSum false (su_da u + k) (su_db u)
+  | OShiftEnd k => if su_flip u then mkSum true (su_da u + k) (su_db u) else mkSum false (su_da u) (su_db u + k)
+  end.
+
+Definition summarize (ops : list sop) : summary := fold_left sum_step ops (mkSum false 0 0).
+
+(* the pure (functional) composition: shift the two original end points, then swap and negate if flipped *)
+Definition closed_form (s : span) (u : summary) : span :=
+  let a := ep_add (sp_start s) (su_da u) in
+  let b := ep_add (sp_end s) (su_db u) in
+  if su_flip u then mkSpan b a (- sp_step s) (sp_needs s) else mkSpan a b (sp_step s) (sp_needs s).
+
+Lemma closed_form_step : forall s u o, sstep (closed_form s u) o = closed_form s (sum_step u o).
+Proof.
+  intros s [fl da db] o. unfold closed_form. cbn [su_flip su_da su_db].
+  destruct o, fl; unfold sstep, with_state, gen_span_reverse, gen_span_shift, gen_span_shift_start, gen_span_shift_end,
+    sum_step; cbn [sp_start sp_end sp_step sp_needs su_flip su_da su_db negb]; rewrite ?ep_add_add;
+    try reflexivity; f_equal; lia.
+Qed.
+
+(* after ANY sequence of in-place mutations the span is the closed form of the history's summary *)
+Theorem history_invariant : forall ops s, run_ops s ops = closed_form s (summarize ops).
+Proof.
+  intros ops s.
+  assert (G : forall ops u, fold_left sstep ops (closed_form s u) = closed_form s (fold_left sum_step ops u)).
+  { induction ops0 as [| o ops0 IH]; intros u; cbn [fold_left]; [reflexivity |]. rewrite closed_form_step. apply IH. }
+  unfold run_ops, summarize. rewrite <- G. f_equal.
+  unfold closed_form. cbn [su_flip su_da su_db]. rewrite !ep_add_0. destruct s; reflexivity.
+Qed.
+
+(* consequently the listing after a history is the enumeration of the closed form *)
+Corollary history_enumerates : forall ops s p q c,
+  let t := run_ops s ops in
+  sp_needs t = false -> sp_start t = At p -> sp_end t = At q -> sp_step t = c -> c <> 0 ->
+  t = closed_form s (summarize ops) /\
+  span_iter t = Ok (map (fun i => padd p (Z.of_nat i * c)) (seq 0 (Z.to_nat (span_count (p_serial p) (p_serial q) c)))).
+Proof.
+  intros ops s p q c t Hn Hs He Hc Hnz. split; [apply history_invariant |].
+  apply (resolved_iter t p q c); assumption.
+Qed.
+
+(* ------------------------------------------------------------------ 9. lib/Period.v agrees with the generated fragments *)
+
+Theorem period_lib_agrees : forall f t y seg,
+  ysf_serial y seg f = gen_serial_from_ysf y seg f /\
+  ysf_serial y seg f = gen_reg_from_year_segment f y seg /\
+  serial_year f t = gen_reg_year f t /\
+  serial_seg f t = gen_reg_segment f t /\
+  (serial_year f t, serial_seg f t) = gen_reg_to_year_segment f t /\
+  p_soy f t = gen_reg_create_soy f t /\
+  p_eopy f t = gen_reg_create_eopy f t /\
+  p_tty f t = gen_reg_create_tty f t /\
+  pshift (mkP f t) (ByKw "yoy") = Ok (Some (mkP f (p_yoy f t))).
+Proof.
+  intros f t y seg. unfold ysf_serial, gen_serial_from_ysf, gen_reg_from_year_segment, serial_year, gen_reg_year,
+    serial_seg, gen_reg_segment, gen_reg_to_year_segment, p_soy, p_eopy, p_tty, p_yoy, gen_reg_create_soy,
+    gen_reg_create_eopy, gen_reg_create_tty, ysf_serial, serial_year, serial_seg.
+  refine (conj _ (conj _ (conj _ (conj _ (conj _ (conj _ (conj _ (conj _ _)))))))); try reflexivity; try lia.
+  all: try (destruct (t mod f + 1 >? 1); [f_equal; lia | reflexivity]).
+  all: try (unfold pshift; cbn [sassoc gen_shift_arms String.eqb Ascii.eqb Bool.eqb]; cbn [p_freq p_serial];
+            f_equal; f_equal; f_equal; try (unfold gen_shift_arm_yoy; lia)).
+Qed.
+
+Definition shift_of (b : shift_spec) : shift_by :=
+  match b with Period.ByInt k => ByInt k | Yoy => ByKw "yoy" | Soy => ByKw "soy" | Eopy => ByKw "eopy" | Tty => ByKw "tty" end.
+
+(* Period.period_shift (used by the Series / Temporal models) is Period.shift of the Dates model on regular frequencies *)
+Theorem period_shift_agrees : forall f b t, is_regular_freq f = true ->
+  pshift (mkP f t) (shift_of b) = Ok (option_map (mkP f) (period_shift f b t)).
+Proof.
+  intros f b t R. destruct (period_lib_agrees f t 0 0) as (_ & _ & _ & _ & _ & S & E & T & Y).
+  destruct b; cbn [shift_of period_shift option_map].
+  - reflexivity.
+  - exact Y.
+  - unfold pshift. cbn [sassoc gen_shift_arms String.eqb Ascii.eqb Bool.eqb]. unfold create_soy. cbn [p_freq p_serial].
+    rewrite (regular_kind f R), S. reflexivity.
+  - unfold pshift. cbn [sassoc gen_shift_arms String.eqb Ascii.eqb Bool.eqb]. unfold create_eopy. cbn [p_freq p_serial].
+    rewrite (regular_kind f R), E. reflexivity.
+  - unfold pshift. cbn [sassoc gen_shift_arms String.eqb Ascii.eqb Bool.eqb]. unfold create_tty. cbn [p_freq p_serial].
+    rewrite (regular_kind f R), T. reflexivity.
+Qed.
+
+(* ------------------------------------------------------------------ 10. non-vacuity *)
+
+Example hypotheses_satisfiable :
+  is_regular_freq 4 = true /\ 1 <= 8081 / 4 /\ in_calendar 738000 /\ in_calendar (738000 + 1) /\
+  (exists s, span_make (Some (At (mkP 4 8080))) (Some (At (mkP 4 8091))) 3 = Ok s /\ sp_needs s = false /\
+             sp_step s <> 0 /\ span_iter s = Ok [mkP 4 8080; mkP 4 8083; mkP 4 8086; mkP 4 8089] /\
+             span_iter (sstep s OReverse) = Ok [mkP 4 8091; mkP 4 8088; mkP 4 8085; mkP 4 8082]) /\
+  (exists s r, span_make None (Some (Ctx false (-1))) 1 = Ok s /\ sp_needs s = true /\
+               span_resolve (mkCtx (mkP 12 24240) (mkP 12 24250)) (run_ops s [OShift 2; OReverse; OShiftEnd 1]) = Ok r /\
+               span_iter r = Ok [mkP 12 24251; mkP 12 24250; mkP 12 24249; mkP 12 24248; mkP 12 24247; mkP 12 24246;
+                                 mkP 12 24245; mkP 12 24244; mkP 12 24243]).
+Proof.
+  split; [reflexivity |]. split; [vm_compute; discriminate |]. split; [unfold in_calendar, max_ordinal; lia |].
+  split; [unfold in_calendar, max_ordinal; lia |]. split.
+  - eexists. split; [reflexivity |]. split; [reflexivity |]. split; [cbn; lia |]. split; vm_compute; reflexivity.
+  - eexists. eexists. split; [reflexivity |]. split; [reflexivity |]. split; vm_compute; reflexivity.
+Qed.
+
+Lemma history_wellformed : forall ops a b c s, span_make a b c = Ok s -> span_wf (run_ops s ops).
+Proof. intros. apply run_ops_wf. eapply span_make_wf. eassumption. Qed.
+
+Lemma calendar_inverse : forall y m d n,
+  (valid_ymd y m d -> ymd_of_ord (ord_of_ymd y m d) = (y, m, d)) /\
+  (let '(y', m', d') := ymd_of_ord n in ord_of_ymd y' m' d' = n /\ 1 <= m' <= 12 /\ 1 <= d' <= days_in_month y' m'
+                                          /\ y' = year_of_ord n).
+Proof. intros. split; [apply ymd_of_ord_of_ymd | apply ord_of_ymd_of_ord]. Qed.
